@@ -23,7 +23,7 @@ SPEC = dict(
              '2/3, acceptance of every list meeting the condition, and order independence. The model is tied to the code by differential '
              'correspondence on real Ed25519 scenarios (sets of 1..100, weights 1/equal/skewed/2^63, thresholds at 2/3 +-1 unit, all fault kinds).',
         level_note='Trusted: Lean kernel (propext, Classical.choice, Quot.sound); Model/Sig.lean as a faithful hand transcription of '
-                   'check_block_signatures (checked by sampled correspondence only, ~1600 scenarios quick / ~12000 thorough); PyNaCl Ed25519 and '
+                   'check_block_signatures (checked by sampled correspondence only, ~3100 scenarios quick / ~15000 thorough); PyNaCl Ed25519 and '
                    'hashlib (the theorems treat verify and SHA-256 as parameters: unforgeability is NOT proved, only that the decision logic '
                    'consults verify with the right key and payload); the Python harness. Validator lists with a repeated key are outside the '
                    'property domain (the reference node refuses such sets); the theorems still cover them (last entry is credited, every entry '
@@ -392,7 +392,7 @@ def run(ctx):
         check_one(ctx, sc)
     # every (target, fault) pair at least once on small sets, then random
     combos = [(t, f) for t in ['above', 'exact', 'below', 'all'] for f in sorted(set(FAULTS))]
-    todo = ctx.n(1500, 12000)
+    todo = ctx.n(3000, 15000)
     done = 0
     while done < todo:
         if done < len(combos):
